@@ -1548,6 +1548,77 @@ def c18i(F, R):
         R.bad("coverage", f"only {n} formatted-then-printed values found in the printers (expected the pretty, the compact and the JSON text)", None)
 
 
+@rule("C18", "C18.j.file-selection-is-exact", floor=1)
+def c18j(F, R):
+    """the printer that honours `--all-files` skips a diagnostic exactly when it lies in another file and `--all-files` is off: the skip condition is evaluated for the four combinations of (same file, all files)"""
+    dp = [q for q in F.fns if q.endswith("PrettyPrint as rva::printer::ErrorDisplay>::display_errors")]
+    if not dp:
+        raise Anchor("PrettyPrint::display_errors not found")
+    g = F.fn(dp[0])
+    body = g["hir"]["value"]
+    ifs = [n for n in walk(body, pats=False) if n.get("k") == "If" and any(y.get("k") == "Continue" for y in walk(n["then"], pats=False)) and any(x.get("k") == "Field" and x["name"] == "all_files" for x in walk(n["cond"], pats=False))]
+    if len(ifs) != 1:
+        R.bad("shape", f"UNEXTRACTABLE: expected one `if <file test && all_files test> {{ .. continue }}` in PrettyPrint::display_errors, found {len(ifs)}", g["sp"])
+        return
+
+    def classify(e):
+        if e.get("k") == "Field" and e["name"] == "all_files":
+            return "all"
+        if e.get("k") == "Binary" and e["op"] in ("Eq", "Ne") and any(x.get("k") == "Field" and x["name"] == "file" for x in walk(e, pats=False)) and not any(x.get("k") == "Field" and x["name"] == "all_files" for x in walk(e, pats=False)):
+            return "same" if e["op"] == "Eq" else "differs"
+        return None
+    wrong = []
+    try:
+        for same in (True, False):
+            for allf in (True, False):
+                r = bool_eval(ifs[0]["cond"], classify, {"same": same, "differs": not same, "all": allf})
+                if r != ((not same) and (not allf)):
+                    wrong.append(f"same file = {same}, --all-files = {allf}: skipped = {r}")
+    except BoolUnx as ex:
+        R.bad("condition|unextractable", f"UNEXTRACTABLE: file-selection condition ({ex})", loc(ifs[0]))
+        return
+    if wrong:
+        R.bad("condition", f"the pretty/compact printer skips a diagnostic under the wrong condition ({wrong[0]}): the base file's own diagnostics vanish, or those of other files appear without --all-files, while the other channels still follow the option", loc(ifs[0]))
+    else:
+        R.ok("condition", detail="skipped iff another file and not --all-files", where=loc(ifs[0]))
+
+
+@rule("C07", "C07.p.recovery-stops-at-the-line-end", floor=1)
+def c07p(F, R):
+    """`recover_from_parse_error` discards tokens up to and including the next newline token and no further: its loop leaves exactly when the token *is* the newline; leaving on anything else ends the recovery after one token and the rest of the bad line is parsed as fresh statements"""
+    rp = [q for q in F.fns if q.endswith("recover_from_parse_error") and "{closure" not in q]
+    if not rp:
+        raise Anchor("recover_from_parse_error not found")
+    g = F.fn(rp[0])
+    body = g["hir"]["value"]
+    loops = list(for_loops(body))
+    if len(loops) != 1:
+        R.bad("shape", f"UNEXTRACTABLE: expected one token loop in recover_from_parse_error, found {len(loops)}", g["sp"])
+        return
+    lp = loops[0]
+    ifs = [n for n in walk(lp["body"], pats=False) if n.get("k") == "If" and any(y.get("k") in ("Break", "Ret") for y in walk(n["then"], pats=False))]
+    if len(ifs) != 1:
+        R.bad("shape", f"UNEXTRACTABLE: expected one `if <token is newline> {{ break }}`, found {len(ifs)}", g["sp"])
+        return
+
+    def classify(e):
+        if e.get("k") == "Binary" and e["op"] in ("Eq", "Ne") and any((x.get("res") or "").endswith("TokenType::Newline") for x in walk(e, pats=False) if x.get("k") == "Path"):
+            return "is_nl" if e["op"] == "Eq" else "not_nl"
+        if e.get("k") == "Match" and len(e.get("arms", [])) == 2 and any(v and v.endswith("TokenType::Newline") for k_, v in pat_variants(e["arms"][0]["pat"]) if k_ == "path") and lit_value(e["arms"][0]["body"]) is True:
+            return "is_nl"
+        return None
+    try:
+        a = bool_eval(ifs[0]["cond"], classify, {"is_nl": True, "not_nl": False})
+        b = bool_eval(ifs[0]["cond"], classify, {"is_nl": False, "not_nl": True})
+    except BoolUnx as ex:
+        R.bad("condition|unextractable", f"UNEXTRACTABLE: recovery stop condition ({ex})", loc(ifs[0]))
+        return
+    if a is True and b is False:
+        R.ok("condition", detail="the loop leaves exactly on the newline token", where=loc(ifs[0]))
+    else:
+        R.bad("condition", f"the recovery loop leaves when the token is{'' if b else ' not'} something other than the newline (newline -> {a}, other -> {b}): the rest of a malformed line is not skipped but parsed as new statements, or the skip runs on into the following lines", loc(ifs[0]))
+
+
 @rule("C18", "C18.f.excerpt-gutter-matches-printed-number", floor=2)
 def c18f(F, R):
     """in the pretty excerpt the blank gutter of the marker line is as wide as the line-number gutter above it: its width is computed from the very value that is printed as the line number (same binding) plus the literal characters printed before the number; otherwise the marker slides off the reported columns on lines 10, 100, ..."""
